@@ -4,11 +4,15 @@ mod gen2;
 mod cases;
 mod c01;
 mod c02;
+mod c41;
+mod c39;
 
 fn run(name: &str, ctx: &mut rvcore::Ctx) -> bool {
     match name {
         "c01" => c01::run_c01(ctx),
         "c02" => c02::run_c02(ctx),
+        "c41" => c41::run_c41(ctx),
+        "c39" => c39::run_c39(ctx),
         _ => return false
     }
     true
